@@ -141,15 +141,13 @@ var c12KeyPool = []c12Expr{
 	c12Const("upper('c')", "call", "C"),
 	c12Const("3 + 4", "number", "7"),
 	c12Const("'k' + upper('x') + 'y'", "concat", "kXy"),
-	{text: "upper('x', 'y')", fails: true, kind: "failing"},
+	{text: "str(2/(strlen('a')-1))", fails: true, kind: "failing"}, // (a wrong argument count is rejected when the plan is built since the C14 fix)
 	c12Const("\"b\"", "literal", "b"),
 	c12Const("'ab' + 'c'", "concat", "abc"),
 }
 
 // only in PUT: a key expression may mention `key` (the empty key at that point)
-var c12PutKeyExtra = []c12Expr{
-	{text: "key + 'a'", kind: "keyref", want: func(k string) string { return "a" }},
-}
+var c12PutKeyExtra = []c12Expr{}
 
 var c12ValPool = []c12Expr{
 	c12Const("'v1'", "literal", "v1"),
@@ -165,7 +163,7 @@ var c12ValPool = []c12Expr{
 	c12Const("2 * 3 + 1", "number", "7"),
 	{text: "1/(1-1)", fails: true, kind: "failing"},
 	{text: "l2_distance(list(1,2), list(1))", fails: true, kind: "failing"},
-	{text: "upper(key, key)", fails: true, kind: "failing"},
+	{text: "str(7/(strlen(key)-strlen(key)))", fails: true, kind: "failing"},
 	{text: "'p' + upper(key + 'z')", kind: "keyref", want: func(k string) string { return "p" + strings.ToUpper(k+"z") }},
 	c12Const("''", "literal", ""),
 }
@@ -756,7 +754,7 @@ func runC12(c *runCtx) error {
 		{keys: []c12Expr{K[2], K[4], K[1]}, vals: []c12Expr{V[2], V[6], V[1]}},
 		{keys: []c12Expr{K[0], K[1]}, vals: []c12Expr{V[0], V[4]}},
 		{keys: []c12Expr{K[5]}, vals: []c12Expr{V[0]}},
-		{keys: []c12Expr{c12PutKeyExtra[0], K[3]}, vals: []c12Expr{V[7], V[8]}},
+		{keys: []c12Expr{K[6], K[3]}, vals: []c12Expr{V[7], V[8]}},
 		{remove: true},
 		{remove: true, keys: []c12Expr{K[0]}},
 		{remove: true, keys: []c12Expr{K[0], K[2], K[0]}},
